@@ -4,7 +4,7 @@
    Runtime residue (not a theorem of any Gallina model): Go scheduler and
    memory model, fairness, completeness of the race detector. *)
 From PV Require Import Base.Prelude Base.Text Model.Locks Model.LocksOps Model.LocksKnown Proofs.Locks Proofs.LocksOps
-  Proofs.LocksSound Proofs.LocksTable.
+  Proofs.LocksSound Proofs.LocksTable Proofs.LocksGuards.
 Open Scope string_scope.
 Open Scope nat_scope.
 
@@ -202,3 +202,71 @@ Example C09_mutations_exist :
           (taccs op [] (flat op (template Purge))) = true.
 Proof. exact mutations_exist. Qed.
 Print Assumptions C09_mutations_exist.
+
+(* ---------------------------------------------------------------------- *)
+(* Guard discipline (round 7).  Model/LocksOps.v [field_guard] names the guarding mutex of every tracked field
+   (row lock for Host/MACEntry state, session lock for the tables and Captured, both for HostList, the handler
+   locks for handler state, "packet loop only" for Statistics / the RA counter, "never written" for dhcp4.mode). *)
+
+(* every access of every template holds the guard of its field: reads the lock (any mode), writes exclusively *)
+Theorem C09_guards_static :
+  forallb (fun o => forallb (fun a => guard_ok (pktloop o) (fst (fst a)) (snd (fst a)) (snd a))
+                            (taccs op [] (flat op (template o)))) all_ops = true.
+Proof. exact guards_static. Qed.
+Print Assumptions C09_guards_static.
+
+(* ... and in the transition system: in EVERY reachable state of every interleaving on any rows, a thread about
+   to access a location holds instantiated locks whose classes satisfy the guard of that field *)
+Theorem C09_guarded_in_every_state : forall (l : list (op * list nat)) s,
+  reachable op template (init op template l) s ->
+  forall i t x w, nth_error (threads op s) i = Some t -> LocksSound.next_access op t = Some (x, w) ->
+  exists r hc, held op t = ihl r hc /\ guard_ok (pktloop (top op t)) (fst x) w hc = true.
+Proof. exact guarded_in_every_state. Qed.
+Print Assumptions C09_guarded_in_every_state.
+
+Example C09_guards_nonvacuous :
+  existsb (fun o => existsb (fun a => snd (fst a) && holds_cW LRow (snd a)) (taccs op [] (flat op (template o)))) all_ops = true.
+Proof. exact guards_nonvacuous. Qed.
+Print Assumptions C09_guards_nonvacuous.
+
+(* ---------------------------------------------------------------------- *)
+(* Channels, semantically (inductive invariant over all interleavings): a thread reaches a close only after
+   the atomic test-and-set of the channel's flag, so a closed channel has its flag set; every send of the table
+   is a guarded non-blocking send testing that flag; hence no send ever hits a closed channel. *)
+
+Theorem C09_closed_channel_has_flag : forall (l : list (op * list nat)) s c,
+  reachable op template (init op template l) s -> chan_closed op s c = true -> flag_set op s (fl c) = true.
+Proof. exact closed_channel_has_flag. Qed.
+Print Assumptions C09_closed_channel_has_flag.
+
+Theorem C09_guarded_send_never_panics : forall (l : list (op * list nat)) s i t c r s',
+  reachable op template (init op template l) s -> panicked op s = false ->
+  nth_error (threads op s) i = Some t -> rest op t = SendIfOpen op (fl c) c :: r ->
+  step op template s i = Some s' -> panicked op s' = false.
+Proof. exact guarded_send_never_panics. Qed.
+Print Assumptions C09_guarded_send_never_panics.
+
+Theorem C09_sends_are_guarded :
+  forallb (fun o => forallb (fun a => match a with
+     | TSend _ => false
+     | TSendIfOpen f c => field_eqb f (flag_of_chan c)
+     | _ => true end) (flat op (template o))) all_ops = true.
+Proof. exact sends_are_guarded. Qed.
+Print Assumptions C09_sends_are_guarded.
+
+Example C09_guarded_sends_exist :
+  existsb (fun o => existsb (fun a => match a with TSendIfOpen _ _ => true | _ => false end) (flat op (template o))) all_ops = true.
+Proof. exact guarded_sends_exist. Qed.
+Print Assumptions C09_guarded_sends_exist.
+
+(* ---------------------------------------------------------------------- *)
+(* Goroutine census: every goroutine the library starts is finite or a loop stopped by its component's Close
+   (C09_close_stops_loops); spawned and ambient goroutines are in the census (the census itself is compared
+   with the `go` statements of the source on every run). *)
+Theorem C09_goroutine_census :
+  forallb (fun o => negb (is_loop o) ||
+                    match stop_chan o, stop_flag o with None, None => false | _, _ => true end) go_census = true
+  /\ forallb (fun o => forallb (fun sp => existsb (op_eqb sp) go_census) (spawns o)) all_ops = true
+  /\ forallb (fun a => existsb (op_eqb a) go_census) ambient_ops = true.
+Proof. exact census_ok. Qed.
+Print Assumptions C09_goroutine_census.
